@@ -6,8 +6,9 @@
 (*   op.err    whether the wrapped call (handler / invoker / stream operation) fails          *)
 (*   op.cls    what the custom response classifier answers ("success" | "ignore" | "dropped") *)
 (*   cfg.custom    custom response classifiers installed (else the defaults: error -> dropped)*)
-(*   cfg.customle  custom limit-exceeded classifier installed (status code Unavailable; the   *)
-(*                 default answers ResourceExhausted)                                         *)
+(*   cfg.customle  custom limit-exceeded classifier installed: it chooses the status code     *)
+(*                 op.lecode per call (from the request); the default answers                 *)
+(*                 ResourceExhausted                                                          *)
 (* The observable: which limiter was asked, whether the wrapped call ran, which listener      *)
 (* method was called on which limiter's token (exactly once), what was returned.              *)
 EXTENDS Integers, Sequences
@@ -28,5 +29,5 @@ ApplyG(cfg, op) ==
         completed |-> <<[lim |-> lim, outcome |-> Outcome(cfg, op)]>>,
         code |-> IF op.err THEN "inner" ELSE "OK", same |-> TRUE]
   ELSE [asked |-> <<lim>>, ran |-> 0, completed |-> <<>>,
-        code |-> IF cfg.customle THEN "Unavailable" ELSE "ResourceExhausted", same |-> FALSE]
+        code |-> IF cfg.customle THEN op.lecode ELSE "ResourceExhausted", same |-> FALSE]
 =================================================================================
